@@ -6,6 +6,12 @@ ids = [json.loads(l)["id"] for l in open(os.path.join(HERE, "properties.jsonl"))
 
 # id -> (technique, level text, level note, design ref)
 CLAIMED = {
+ "C02": ("proptest: patterns cut from generated code (holes/trailing runs) with an independent shape precondition; oracle = exact expected bindings by construction (round-trip of abstraction)",
+         "Randomised exploration over all 23 languages and 5 strictness levels: tens of thousands of (node, hole set, trailing run) cases per run whose pattern re-parses to the shape of the code; each must match its origin and bind every hole to exactly the replaced span.",
+         "Trusted: tree-sitter parse of pattern and code; the shape precondition is evaluated by the harness's own tree comparison; cases failing it are discarded and counted.", "DESIGN.md §5 C02"),
+ "C03": ("proptest: near-miss candidates (same-kind nodes, scoped tree mutations) vs. O-align, an independent existential legal-alignment relation (reference model), at all strictness levels",
+         "Randomised exploration: hundreds of thousands of (pattern, candidate, strictness) triples per run; every reported match must have a legal alignment under the documented strictness table, and the reported match length must stay inside the node and on a token boundary.",
+         "Trusted: the pattern tree as parsed by ast-grep (matching is independent); O-align is deliberately at least as permissive as documentation + documented tests, so only soundness is claimed.", "DESIGN.md §5 C03"),
  "C10": ("proptest: generated edit histories vs. fresh-parse reference + independent raw tree-sitter incremental chain (differential), shrinking to replay files",
          "Randomised exploration: thousands of generated edit histories per run over all 23 languages; after every step the document text must equal the O-splice model and, when the text parses error-free, the tree must equal a fresh parse (a divergence that an independent, correctly driven tree-sitter incremental chain reproduces exactly is the listed tree-sitter known finding). No absence claim.",
          "Trusted: tree-sitter's fresh parse as reference; the harness's own InputEdit chain; the property is only asserted at error-free steps.", "DESIGN.md §5 C10"),
